@@ -217,6 +217,7 @@ def run_contract_path(c, reg, ctx):
     except PyRaise as e:
         ecls = e.exc.cls
         pr.outcome = "raise:" + ecls
+        pr.exc, pr.selfobj = e.exc, selfobj          # read by pyvc/xcheck.py (thorough tier) only
         allowed = None
         for k in list(c.raises) + list(c.raises_exactly):
             if reg.is_subclass(ecls, k):
@@ -236,6 +237,7 @@ def run_contract_path(c, reg, ctx):
         check_frame(it, c, key, old, selfobj)
     else:
         pr.outcome = "return"
+        pr.result, pr.selfobj = result, selfobj      # read by pyvc/xcheck.py (thorough tier) only
         ctx.cover("return")
         for ecls, cond in c.raises_exactly.items():
             ctx.prove(z3.Not(it.truth(it.eval_spec(cond, old))), f"{key}.raises[{ecls}].if",
